@@ -23,9 +23,12 @@
 (*   stop()      : if joinable: push the marker; join                      *)
 (*   ~GC()       : stop()                                                  *)
 (*                                                                         *)
+(* Several threads may retire concurrently: tick and push are separate     *)
+(* steps, so the queue (and a consumed batch) is NOT ordered by epoch.      *)
+(*                                                                         *)
 (* The constant Drain selects the loop condition: FALSE = `while (running)`*)
-(* - what the pinned commit executes; TRUE = `while (running || index <    *)
-(* tasks.size())` - the repaired loop.  Which one the code under test      *)
+(* - what the originally pinned commit executed (finding H2); TRUE = `while *)
+(* (running || index < tasks.size())` - the repaired loop of /repo HEAD.  Which one the code under test      *)
 (* follows is decided by trace validation (GC_Trace), like the memory      *)
 (* order tables of the weak-memory components.                             *)
 (***************************************************************************)
@@ -50,7 +53,7 @@ Thr == 1..Len(cfg.prog)
 Cap == cfg.cap
 Batch == IF Cap < 1024 THEN Cap ELSE 1024
 Regs == 1..cfg.nreg
-Ids == 1..8
+Ids == 1..12
 
 MinOf(a, b) == IF a <= b THEN a ELSE b
 SetMin(S) == IF S = {} THEN MAXV ELSE CHOOSE x \in S : \A y \in S : x <= y
@@ -123,8 +126,12 @@ Leave(t) ==
 (***************************************************************************)
 PosOf(t) == CHOOSE p \in 1..Len(q) : q[p].owner = t /\ q[p].st = "ticket"
 
+\* contract of stop() / the destructor: no retire() is executing or still to come on another thread
+NoRetirePending(t) == \A u \in Thr \ {t} : \A j \in L[u].opi..Len(cfg.prog[u]) : cfg.prog[u][j].op # "retire"
+
 Call(t) ==
   /\ pc[t] = "idle" /\ HasOp(t) /\ Op(t).op \in {"retire", "stop", "dtor"}
+  /\ (Op(t).op \in {"stop", "dtor"} => NoRetirePending(t))
   /\ LET o == Op(t) IN
      /\ ev' = [NoEv EXCEPT !.t = t, !.k = "call", !.op = o.op, !.x = o.x]
      /\ IF o.op = "retire"
